@@ -617,7 +617,8 @@ Theorem tree1d_facts_semilocalp_any : forall order, tree1d_facts Semilocalp orde
 Proof.
   intros order. pose proof (or_intror eq_refl : lp_rule Semilocalp) as Hr. constructor.
   - intros p Hp.
-    assert (p = 0 \/ p = 1 \/ p = 2 \/ 3 <= p) as [-> | [-> | [-> | H3]]] by lia; try (vm_compute; reflexivity).
+    assert (p = 0 \/ p = 1 \/ p = 2 \/ 3 <= p) as [-> | [-> | [-> | H3]]] by lia;
+      [vm_compute; reflexivity|vm_compute; reflexivity|vm_compute; reflexivity|].
     apply unit_scaled. exact H3.
   - intros p q Hp Hq Hne Hnz.
     assert (Cq : (q = 0 \/ q = 1 \/ q = 2) \/ 3 <= q) by lia.
